@@ -16,7 +16,9 @@ that no allocation request exceeds 112 bytes per input byte):
 * `parseIndex_total` — `ParseIndex` of pkg/storage and `parseIndex` of both decoders;
 * `pitr_collect_total`, `pitr_plan_total` — `collectRecoverableBatches` (with
   `truncateRecordBatchToTimestamp`, `scanRecord`) and `buildRestorePlan`;
-* witnesses that the code before fix C34 violates the property (`…Old…`), by evaluation.
+* witnesses that the code before fix C34 violates the property (`…Old…`), by evaluation;
+* `varint_overflow_is_error`, `scanRecord_total` — the hand-written varint readers answer an over-long varint with an
+  error and otherwise a value with a byte count in 1..10; `scanRecord` on any bytes returns an error or in-range values.
 -/
 namespace KafVerif.Kafka
 
@@ -645,5 +647,197 @@ example : (decodeSegmentA (goMakeLim AllocMax) cfgSql wCountWrap7).cost = 0 ∧
     (collectRecoverableA (fun _ => 0) (goMakeLim AllocMax) wHdrCountNeg 5).cost = 74 := by decide
 set_option maxRecDepth 8000 in
 example : (collectRecoverable (fun _ => 0) (goMakeLim AllocMax) wRecordLen40 5).tag = "err" := by decide
+
+/-! ### over-long / overflowing varints (seeded change C34-r3-2) -/
+
+/-- every byte of `pre` has the continuation bit (`b & 0x80 != 0`) -/
+def AllCont (pre : Bytes) : Prop := ∀ b ∈ pre, 128 ≤ b.toNat
+
+instance (pre : Bytes) : Decidable (AllCont pre) := by unfold AllCont; exact inferInstance
+
+/-- The reader loop gives up (`none` = returned error) as soon as the continuation bytes carry the shift past
+the loop bound — whatever bytes follow. -/
+theorem readUvarintW_overlong (W lim : Nat) : ∀ (pre rest : Bytes) (shift value : Nat),
+    AllCont pre → shift ≤ lim → lim < shift + 7 * pre.length →
+    readUvarintW W lim shift value (pre ++ rest) = none := by
+  intro pre
+  induction pre with
+  | nil => intro rest shift value _ h1 h2; simp at h2; omega
+  | cons b t ih =>
+    intro rest shift value hc h1 h2
+    have hb : 128 ≤ b.toNat := hc b (by simp)
+    have hnb : ¬ b.toNat < 128 := by omega
+    simp only [List.cons_append, readUvarintW, hnb, if_false]
+    split
+    · rfl
+    · apply ih
+      · intro x hx; exact hc x (by simp [hx])
+      · omega
+      · simp only [List.length_cons] at h2; omega
+
+/-- A value returned by the loop fits the `W`-bit accumulator. -/
+theorem readUvarintW_lt_pow {W lim : Nat} : ∀ (r : Bytes) (shift value u : Nat) (rest : Bytes),
+    value < 2 ^ W → readUvarintW W lim shift value r = some (u, rest) → u < 2 ^ W := by
+  intro r
+  induction r with
+  | nil => intro shift value u rest _ h; simp [readUvarintW] at h
+  | cons b t ih =>
+    intro shift value u rest hv h
+    have hv' : value ||| ((b.toNat % 128) * 2 ^ shift % 2 ^ W) < 2 ^ W :=
+      Nat.or_lt_two_pow hv (Nat.mod_lt _ (Nat.two_pow_pos W))
+    simp only [readUvarintW] at h
+    split at h
+    · simp only [Option.some.injEq, Prod.mk.injEq] at h; rw [← h.1]; exact hv'
+    · split at h
+      · simp at h
+      · exact ih _ _ _ _ hv' h
+
+/-- A value returned by the loop consumed a non-empty prefix of at most `(lim - shift)/7 + 1` bytes:
+the byte count is never zero, never negative, never above the loop bound. -/
+theorem readUvarintW_consumed {W lim : Nat} : ∀ (r : Bytes) (shift value u : Nat) (rest : Bytes),
+    shift ≤ lim → readUvarintW W lim shift value r = some (u, rest) →
+    ∃ pre, r = pre ++ rest ∧ 1 ≤ pre.length ∧ shift + 7 * pre.length ≤ lim + 7 := by
+  intro r
+  induction r with
+  | nil => intro shift value u rest _ h; simp [readUvarintW] at h
+  | cons b t ih =>
+    intro shift value u rest hs h
+    simp only [readUvarintW] at h
+    split at h
+    · simp only [Option.some.injEq, Prod.mk.injEq] at h
+      exact ⟨[b], by simp [h.2], by simp, by simp; omega⟩
+    · split at h
+      · simp at h
+      · obtain ⟨pre, h1, h2, h3⟩ := ih _ _ _ _ (by omega) h
+        exact ⟨b :: pre, by simp [h1], by simp, by simp only [List.length_cons]; omega⟩
+
+theorem readVarint64_inv {r : Bytes} {v : Int} {rest : Bytes} (h : readVarint64 r = some (v, rest)) :
+    InI64 v ∧ ∃ pre, r = pre ++ rest ∧ 1 ≤ pre.length ∧ pre.length ≤ 10 := by
+  unfold readVarint64 at h
+  cases hh : readUvarint64 0 0 r with
+  | none => simp [hh] at h
+  | some p =>
+    obtain ⟨u, rr⟩ := p
+    simp only [hh, Option.map_some, Option.some.injEq, Prod.mk.injEq] at h
+    have hu : u < 2 ^ 64 := readUvarintW_lt_pow r 0 0 u rr (Nat.two_pow_pos 64) hh
+    obtain ⟨pre, h1, h2, h3⟩ := readUvarintW_consumed r 0 0 u rr (Nat.zero_le _) hh
+    refine ⟨by rw [← h.1]; exact unzig_in64 hu, pre, by rw [← h.2]; exact h1, h2, by omega⟩
+
+theorem unzig32Sql_in32 (p : Nat) : InI32 (unzig32Sql (toS32 p)) := by
+  unfold InI32 unzig32Sql toS32
+  split <;> split <;> omega
+
+theorem readVarint32Sql_inv {r : Bytes} {v : Int} {rest : Bytes} (h : readVarint32Sql r = some (v, rest)) :
+    InI32 v ∧ ∃ pre, r = pre ++ rest ∧ 1 ≤ pre.length ∧ pre.length ≤ 5 := by
+  unfold readVarint32Sql at h
+  cases hh : readUvarint32 0 0 r with
+  | none => simp [hh] at h
+  | some p =>
+    obtain ⟨u, rr⟩ := p
+    simp only [hh, Option.map_some, Option.some.injEq, Prod.mk.injEq] at h
+    obtain ⟨pre, h1, h2, h3⟩ := readUvarintW_consumed r 0 0 u rr (Nat.zero_le _) hh
+    refine ⟨by rw [← h.1]; exact unzig32Sql_in32 u, pre, by rw [← h.2]; exact h1, h2, by omega⟩
+
+/-- **C34 (over-long varints are errors, never a negative count).**  For the hand-written readers of the
+repository (`readVarint` of the iceberg decoder and of `pkg/storage/recovery_exact.go`, `readVarlong`/`readVarint`
+of the sql decoder):
+1. a varint whose continuation bytes run past 10 bytes (sql int32 reader: past 5) decodes to an ERROR, whatever follows;
+2. every other outcome is an error or a value inside the integer range together with a consumed byte count between
+   1 and 10 (sql: 1 and 5) — a count that is zero, negative or larger than the input does not exist, so no slice
+   expression `fields[n:]` after a varint can go out of range.
+(What the code does when the 10th byte is a final byte > 1: it returns a value, the bits above 2^64 are dropped —
+see the `example`s below; it is covered by 2.) -/
+theorem _root_.KafVerif.C34.varint_overflow_is_error :
+    (∀ pre rest : Bytes, pre.length = 10 → AllCont pre → readVarint64 (pre ++ rest) = none) ∧
+    (∀ pre rest : Bytes, pre.length = 5 → AllCont pre → readVarint32Sql (pre ++ rest) = none) ∧
+    (∀ r : Bytes, readVarint64 r = none ∨
+      ∃ v pre rest, readVarint64 r = some (v, rest) ∧ r = pre ++ rest ∧ 1 ≤ pre.length ∧ pre.length ≤ 10 ∧ InI64 v) ∧
+    (∀ r : Bytes, readVarint32Sql r = none ∨
+      ∃ v pre rest, readVarint32Sql r = some (v, rest) ∧ r = pre ++ rest ∧ 1 ≤ pre.length ∧ pre.length ≤ 5 ∧ InI32 v) := by
+  refine ⟨?_, ?_, ?_, ?_⟩
+  · intro pre rest hl hc
+    have := readUvarintW_overlong 64 63 pre rest 0 0 hc (by omega) (by omega)
+    simp [readVarint64, readUvarint64, this]
+  · intro pre rest hl hc
+    have := readUvarintW_overlong 32 28 pre rest 0 0 hc (by omega) (by omega)
+    simp [readVarint32Sql, readUvarint32, this]
+  · intro r
+    cases h : readVarint64 r with
+    | none => exact Or.inl rfl
+    | some p =>
+      obtain ⟨v, rest⟩ := p
+      obtain ⟨hv, pre, h1, h2, h3⟩ := readVarint64_inv h
+      exact Or.inr ⟨v, pre, rest, rfl, h1, h2, h3, hv⟩
+  · intro r
+    cases h : readVarint32Sql r with
+    | none => exact Or.inl rfl
+    | some p =>
+      obtain ⟨v, rest⟩ := p
+      obtain ⟨hv, pre, h1, h2, h3⟩ := readVarint32Sql_inv h
+      exact Or.inr ⟨v, pre, rest, rfl, h1, h2, h3, hv⟩
+
+theorem wrap32_in32 (i : Int) : InI32 (wrap32 i) := by
+  unfold InI32 wrap32 toS32
+  split <;> omega
+
+/-- **C34 (`scanRecord` is total).**  For ANY bytes left in the batch reader and any allocator that grants one byte
+per input byte, `scanRecord` returns an error, or a timestamp delta inside int64, an offset delta inside int32 and
+strictly fewer unread bytes (a suffix of the input) — nothing else (no panic, no other value). -/
+theorem _root_.KafVerif.C34.scanRecord_total (r : Bytes) (lim : Nat) (hl : r.length ≤ lim) :
+    scanRecord (goMakeLim lim) r = .err ∨
+    ∃ ts od rest, scanRecord (goMakeLim lim) r = .ok ((ts, od), rest) ∧ InI64 ts ∧ InI32 od ∧
+      rest.length < r.length ∧ ∃ pre, r = pre ++ rest := by
+  unfold scanRecord
+  cases hlen : readVarint64 r with
+  | none => simp
+  | some len =>
+    obtain ⟨_, pre0, hpre0, _, _⟩ := readVarint64_inv (r := r) (v := len.1) (rest := len.2) hlen
+    have h1 := readVarint64_rest_lt (r := r) (v := len.1) (rest := len.2) hlen
+    simp only [ofOpt_some, bind_ok]
+    by_cases hneg : len.1 < 0
+    · simp [hneg]
+    · by_cases hbig : len.1 > (len.2.length : Int)
+      · simp [hneg, hbig]
+      · have hmk : goMakeLim lim len.1 1 = .ok () := goMakeLim_ok (by omega) (by omega)
+        simp only [hneg, hbig, if_false, hmk, bind_ok]
+        cases hp : readN len.1.toNat len.2 with
+        | none => simp
+        | some p =>
+          have hq := readN_eq (a := p.1) (b := p.2) hp
+          simp only [ofOpt_some, bind_ok]
+          cases hd : p.1 with
+          | nil => simp
+          | cons a0 b1 =>
+            simp only
+            cases hts : readVarint64 b1 with
+            | none => simp
+            | some ts =>
+              simp only [ofOpt_some, bind_ok]
+              cases hod : readVarint64 ts.2 with
+              | none => simp
+              | some od =>
+                simp only [ofOpt_some, bind_ok]
+                refine Or.inr ⟨ts.1, wrap32 od.1, p.2, rfl, (readVarint64_inv (r := b1) (v := ts.1) (rest := ts.2) hts).1,
+                  wrap32_in32 _, ?_, pre0 ++ len.2.take len.1.toNat, ?_⟩
+                · rw [hq.2.1, List.length_drop]; omega
+                · rw [hq.2.1, List.append_assoc, List.take_append_drop]; exact hpre0
+
+/-- the loop of `truncateRecordBatchToTimestamp` over it, the frame loop and the plan builder are total by
+`pitr_collect_total` / `pitr_plan_total`; this restates them for the crafted inputs of the seeded change. -/
+def ff9 : Bytes := [255, 255, 255, 255, 255, 255, 255, 255, 255]
+
+example : AllCont (ff9 ++ [255]) ∧ (ff9 ++ [255]).length = 10 := by decide
+example : readVarint64 (ff9 ++ [255, 1]) = none := by decide                       -- 11 bytes: error
+example : readVarint64 (ff9 ++ [1, 7]) = some (-(2:Int) ^ 63, [7]) := by decide     -- legal boundary: 2^64-1
+example : readVarint64 (ff9 ++ [0, 7]) = some (-(2:Int) ^ 62, [7]) := by decide     -- legal, non-canonical
+-- 10th byte 0x7f (> 1, final): the code keeps bit 0 of it and drops the rest; a value and a count of 10, not a crash
+example : readVarint64 (ff9 ++ [127, 7]) = some (-(2:Int) ^ 63, [7]) := by decide
+example : readVarint32Sql [255, 255, 255, 255, 255, 0] = none := by decide
+-- the record of the seeded change's demo (attributes 0, timestamp delta = nine 0xff + 0x7f, offset delta 1, null key,
+-- null value, no headers): scanned to a value by the code as it is
+example : scanRecord (goMakeLim 64) ([30, 0] ++ ff9 ++ [127, 2, 1, 1, 0]) = .ok ((-(2:Int) ^ 63, 1), []) := by decide
+-- eleven continuation bytes in the timestamp delta: an error
+example : scanRecord (goMakeLim 64) ([34, 0] ++ ff9 ++ [255, 255, 1, 2, 1, 1, 0]) = .err := by decide
+example : ([30, 0] ++ ff9 ++ [127, 2, 1, 1, 0] : Bytes).length ≤ 64 := by decide
 
 end KafVerif.Kafka
